@@ -123,7 +123,7 @@ DistinctNames == \A i, j \in 1..Len(names) : i # j => names[i] # names[j]
 SameProblem == pc = "done" =>
    /\ Rect
    /\ ShapeProblems(Pair) = {}
-   /\ ExactProblems(Pair) = {}
+   /\ (KY(Pair) <= ExactMax => ExactProblems(Pair) = {})
    /\ Bad(Pair) = {}
 Inv == NoFreeLeft /\ AllEqualities /\ DistinctNames /\ SameProblem
 =============================================================================
